@@ -87,6 +87,13 @@ class FortranNameManager:
             def _name_added(self, name):
                 self._lower_names.add(name.lower())
 
+            def __call__(self, based_on="id"):
+                name = super().__call__(based_on)
+                if len(name) > 63:
+                    # Fortran names are limited to 63 characters.
+                    name = super().__call__(based_on[:55])
+                return name
+
         self.name_generator = CaseInsensitiveUniqueNameGenerator()
         self.local_map = KeyToUniqueNameMap(name_generator=self.name_generator)
         self.global_map = KeyToUniqueNameMap(start={
@@ -95,6 +102,8 @@ class FortranNameManager:
         self.function_map = KeyToUniqueNameMap(
                 name_generator=self.name_generator,
                 key_translate_func=make_function_identifier_from_name)
+        self.long_refcount_map = KeyToUniqueNameMap(
+                name_generator=self.name_generator)
 
     def name_global(self, var):
         """Return the identifier for a global variable."""
@@ -129,10 +138,15 @@ class FortranNameManager:
 
     def name_refcount(self, name, qualified_with_state=True):
         if is_state_variable(name):
+            refcnt_name = "dagrt_refcnt_"+self.name_global(name)
+            if len(refcnt_name) > 63:
+                refcnt_name = self.long_refcount_map.get_or_make_name_for_key(
+                        "dagrt_refcnt_"+name)
+
             if qualified_with_state:
-                return "dagrt_state%dagrt_refcnt_"+self.name_global(name)
+                return "dagrt_state%"+refcnt_name
             else:
-                return "dagrt_refcnt_"+self.name_global(name)
+                return refcnt_name
         else:
             return self.name_local("dagrt_refcnt_"+name)
 
